@@ -442,6 +442,11 @@ func intValued(l Lin) bool {
 
 // trunc models float->int conversion (truncation toward zero) for a non-NaN value.
 func (an *An) trunc(in AV) AV {
+	if len(in.Lo) == 0 || len(in.Hi) == 0 {
+		// a float that is not bounded on both sides may exceed the integer range:
+		// the conversion result is then implementation-defined (e.g. MinInt64 on amd64)
+		return top()
+	}
 	r := AV{}
 	for _, l := range in.Lo {
 		switch {
